@@ -333,7 +333,7 @@ fn deep_obs(line: &str, w: &[&str]) -> String {
 fn raw(t: Option<&&str>) -> String {
     match t {
         None => String::new(),
-        Some(x) if *x == &"_" => String::new(),
+        Some(x) if **x == *"_" => String::new(),
         Some(x) => x.to_string(),
     }
 }
@@ -341,7 +341,7 @@ fn raw(t: Option<&&str>) -> String {
 fn hexarg(t: Option<&&str>) -> Option<String> {
     match t {
         None => Some(String::new()),
-        Some(x) if *x == &"-" => Some(String::new()),
+        Some(x) if **x == *"-" => Some(String::new()),
         Some(x) => String::from_utf8(unhex(x)?).ok(),
     }
 }
